@@ -165,7 +165,42 @@ def to_class(field, exp, got, sp):
     return str(got)[:40]
 
 
-def oracle(fmt, cfg, irj, got_irj, issues=(), in_domain=False):
+def emitted_docstring(real):
+    """the docstring text of the re-read emitted node (None when there is none)"""
+    for st in (real.get("reparsed") or {}).get("body", [])[:1]:
+        if st.get("k") == "doc":
+            return st["s"]
+    return None
+
+
+_ENTRY_END = re.compile(r"\n[ \t]*:(?:cvar|param|type|return|returns|rtype)\b")
+
+
+def announcement_shape(doc_text, name, is_return=False):
+    """how the default announcement of one entry sits in the emitted ReST docstring (textwrap.fill, width 100, breaks long lines):
+    `absent` | `one-line` | `wrapped` (a line break inside ". Defaults to <value>") | `blank-line-inside` (a whitespace-only line inside it:
+    the emitter puts one after the first line of the first entry when the interface has no description) | `n/a` (not ReST / no docstring).
+    → (shape, offset of the first line break from the start of the announcement, or None)"""
+    if doc_text is None:
+        return "n/a", None
+    m = re.search(r":return:" if is_return else r":(?:cvar|param) %s:" % re.escape(name), doc_text)
+    if m is None:
+        return "n/a", None
+    seg = doc_text[m.end():]
+    e = _ENTRY_END.search(seg)
+    seg = (seg[:e.start()] if e else seg).rstrip()
+    a = re.search(r"[.,]?\s*\b[Dd]efaults?\b", seg)
+    if a is None:
+        return "absent", None
+    ann = seg[a.start():]
+    if re.search(r"\n[ \t]*\n", ann):
+        return "blank-line-inside", ann.index("\n")
+    if "\n" in ann:
+        return "wrapped", ann.index("\n")
+    return "one-line", None
+
+
+def oracle(fmt, cfg, irj, got_irj, issues=(), in_domain=False, doc_text=None):
     """the property on the real round trip: names, order, types, typed defaults, normalised descriptions; only the
     statement's two normalisations are applied to the expectation.  → list of (signature, text).
 
@@ -205,9 +240,10 @@ def oracle(fmt, cfg, irj, got_irj, issues=(), in_domain=False):
     elif exp["returns"] is not None:
         pairs.append(("return", exp["returns"], got["returns"], irj["returns"]))
     for entry, e, g, sp in pairs:
+        shape = announcement_shape(doc_text if cfg["style"] == "rest" else None, e[0], entry == "return")[0]
         for field, i in (("typ", 1), ("default", 2), ("doc", 3)):
             if e[i] != g[i]:
-                sig = dict(base, entry=entry, field=field, typ_kind=typ_kind(sp.get("typ")), has_bracket="[" in (sp.get("typ") or ""),
+                sig = dict(base, entry=entry, field=field, announcement=shape, typ_kind=typ_kind(sp.get("typ")), has_bracket="[" in (sp.get("typ") or ""),
                            default_kind=default_kind(sp.get("default")), to=to_class(field, e[i], g[i], sp), **default_flags(sp.get("default")), **layer(e[0], field))
                 out.append((sig, "%s %s: %s came back as %r, expected %r (typ %r, default %s)" % (entry, e[0], field, g[i], e[i], sp.get("typ"), tv(sp.get("default")))))
     return out
@@ -250,6 +286,11 @@ def _real_case(job):
     fmt, cfg, ir, docreq = job
     out = {"notes": []}
     names = list(ir["params"]) + ["return_type", "argument_parser"]
+    if fmt == "argparse":
+        from cdd.shared.pure_utils import fill
+
+        if any(isinstance(p.get("doc"), str) and fill(p["doc"]) != p["doc"] for p in ir["params"].values()):
+            out["notes"].append("textwrap.fill changes a help string (outside the model)")
     # the docstring layer's answer to the emitter's request (asked by the model)
     try:
         out["doc_text"] = R.real_doc_emit(docreq["cfg"], docreq["ir"])
@@ -451,7 +492,7 @@ def evaluate(chk, rec, sig_counts, witness_of=None):
                "default_kinds": "+".join(sorted({default_kind(p.get("default")) for _, p in rec["irj"]["params"]}))}
         fails.append((sig, "%s raises %s" % (stage, exc)))
     else:
-        fails = oracle(f, c, rec["irj"], r["parsed"], issues, in_dom)
+        fails = oracle(f, c, rec["irj"], r["parsed"], issues, in_dom, emitted_docstring(r))
     for sig, text in fails:
         key = "|".join("%s=%s" % (k, sig.get(k)) for k in ("layer", "format", "style_group", "edd", "entry", "field", "to", "hyp", "exc"))
         sig_counts[key] = sig_counts.get(key, 0) + 1
@@ -565,6 +606,7 @@ def _v(t, v):
     return {"t": t, "v": v}
 
 
+_WRAP_BASE = "Tempo kept steady across every movement and again after each pause so that no bar drags while others wait"
 REST = {"style": "rest", "edd": False}
 REST_E = {"style": "rest", "edd": True}
 FN = {"style": "rest", "edd": False, "type_annotations": True, "kw_only": False}
@@ -595,6 +637,10 @@ WITNESSES = {
     "C02-doc-google-numpydoc-fn-defaults": ("function", {"style": "google", "edd": True, "type_annotations": True, "kw_only": False},
                                             _ir([("n", {"doc": "a count", "typ": "int", "default": _v("int", "5")})], {"doc": "the result", "typ": "int"})),
     "C02-doc-layer-raises": ("function", dict(FN, edd=True, type_annotations=False), _ir([("x", {"doc": "a value", "typ": "int", "default": _v("str", "```foo(3)```")})])),
+    "C02-doc-blank-line-in-wrapped-announcement-doc": ("class", REST_E, dict(_ir([("n", {"doc": _WRAP_BASE[:80], "typ": "int", "default": _v("int", "5")}),
+                                                                                    ("m", {"doc": "a value", "typ": "int", "default": _v("int", "7")})]), doc="")),
+    "C02-doc-blank-line-in-wrapped-announcement-default": ("function", dict(FN, edd=True), dict(_ir([("n", {"doc": _WRAP_BASE[:77], "typ": "int", "default": _v("int", "5")}),
+                                                                                                    ("m", {"doc": "a value", "typ": "int", "default": _v("int", "7")})]), doc="")),
     "C02-doc-google-numpydoc-argparse-return": ("argparse", {"style": "google", "edd": False}, _ir([], {"doc": "the result", "typ": "int", "default": _v("str", "K")})),
 }
 
@@ -694,10 +740,42 @@ def run(chk: core.Check) -> int:
         for rec in run_cases(chk, tcases[i:i + B], "triggers"):
             compare(chk, rec, stats, "triggers")
             chk.count(("trigger", rec["fmt"], json.dumps(rec["cfg"], sort_keys=True), json.dumps(rec["irj"], sort_keys=True)), False)
+    # ---- (5) wrap boundary: description lengths swept across textwrap.fill's width, so that with emit_default_doc=True the
+    #          line break falls at every position of ". Defaults to <value>"; the property oracle runs on the REAL pipeline
+    #          (the model takes the docstring text from the real layer, textwrap itself is outside it)
+    wirs = G.gen_wrap_irs(rng, per_length=3 if chk.quick else 16)
+    wcases = [(f, c, ir) for ir in wirs for f in R.FORMATS for c in CFGS[f]]
+    wshape = collections.Counter()
+    woffsets = {}
+    n_wrap_thm = 0
+    for i in range(0, len(wcases), B):
+        for rec in run_cases(chk, wcases[i:i + B], "wrap"):
+            claimed = compare(chk, rec, stats, "wrap")
+            evaluate(chk, rec, sig_counts)
+            m = rec["m_dom"]
+            ok_thm = bool(m.get("in")) and bool(m.get("hyp")) and claimed
+            n_wrap_thm += ok_thm
+            chk.count(("wrap", rec["fmt"], json.dumps(rec["cfg"], sort_keys=True), json.dumps(rec["irj"], sort_keys=True)), ok_thm)
+            if rec["cfg"]["edd"] and rec["cfg"]["style"] == "rest" and rec["fmt"] != "argparse":
+                dt = emitted_docstring(rec["real"])
+                names = [k for k, _ in rec["irj"]["params"]]
+                for pos, nm in enumerate(names):
+                    shape, off = announcement_shape(dt, nm)
+                    place = "last" if pos == len(names) - 1 and rec["irj"].get("returns") is None else "not-last"
+                    grp = "class/pydantic" if rec["fmt"] in ("class", "pydantic") else "function"
+                    wshape[(grp, place, shape)] += 1
+                    if off is not None:
+                        woffsets.setdefault("%s | %s" % (grp, shape), set()).add(off)
+    chk.coverage["wrap_stream"] = {
+        "interfaces": len(wirs), "cases": len(wcases), "description_lengths": [G.WRAP_LENGTHS[0], G.WRAP_LENGTHS[-1]],
+        "cases inside D02 with the docstring-layer hypotheses true": n_wrap_thm,
+        "announcement_shapes (ReST, emit_default_doc=True)": {" | ".join(k): v for k, v in sorted(wshape.items())},
+        "line-break offsets inside '. Defaults to <value>' that occurred": {k: sorted(v) for k, v in sorted(woffsets.items())},
+    }
     n_dis = sum(v for k, v in stats.items() if k[-1] == "DISAGREE")
     n_agree = sum(v for k, v in stats.items() if k[-1] == "agree" or k[-1].startswith("both raise") or k[-1].startswith("docstring layer raises"))
-    chk.oblige("correspondence: real emitters/parsers = Iface.emit / Top.reparse / Iface.parse on %d generated cases + %d hand-written sources + %d trigger cases + %d witnesses "
-               "(emitted AST, re-parsed AST, parsed IR)" % (n_main, len(srcs), len(tcases), len(WITNESSES)), "correspondence", n_dis == 0,
+    chk.oblige("correspondence: real emitters/parsers = Iface.emit / Top.reparse / Iface.parse on %d generated cases + %d hand-written sources + %d trigger cases + %d wrap-boundary cases + %d witnesses "
+               "(emitted AST, re-parsed AST, parsed IR)" % (n_main, len(srcs), len(tcases), len(wcases), len(WITNESSES)), "correspondence", n_dis == 0,
                "%d disagreements; %d stage agreements; %d cases fully claimed by the model" % (n_dis, n_agree, n_claimed))
     chk.coverage["correspondence_outcomes"] = {" | ".join(k): v for k, v in sorted(stats.items())}
     chk.coverage["input_distribution"] = {" | ".join(k): v for k, v in sorted(cov.items())}
@@ -708,7 +786,8 @@ def run(chk: core.Check) -> int:
                       "complex, None and code defaults with ~45 % falsy values; return entries with and without a source default; static / self / cls) x 4 formats x 3 docstring styles x "
                       "emit_default_doc x (type annotations, kw-only) for functions: real emit -> to_code -> ast.parse -> real parse; oracle = names, order, types, typed defaults, "
                       "descriptions (whitespace / terminal full stop) against the interface under the statement's two normalisations only; non-trivial = inside D02 with the docstring-layer "
-                      "hypotheses true on the real layer and every stage claimed by the model")
+                      "hypotheses true on the real layer and every stage claimed by the model; plus a wrap-boundary stream (2-4 parameters with defaults, description lengths 52-99 so that "
+                      "textwrap.fill breaks the line at every position of '. Defaults to <value>') through the same real pipeline and oracle")
 
 
 def prim_correspondence(chk, rng):
